@@ -51,6 +51,12 @@ namespace BitSerializer::Detail
 			outTimestamp.Seconds = std::chrono::duration_cast<std::chrono::seconds>(epochTime).count();
 			const auto leftTime = epochTime - std::chrono::duration_cast<TDuration>(std::chrono::seconds(outTimestamp.Seconds));
 			outTimestamp.Nanoseconds = static_cast<int32_t>(std::chrono::duration_cast<std::chrono::nanoseconds>(leftTime).count());
+			// Nanoseconds must be in the range [0, 999999999], so seconds are rounded down for time points before the epoch
+			if (outTimestamp.Nanoseconds < 0)
+			{
+				--outTimestamp.Seconds;
+				outTimestamp.Nanoseconds += 1000000000;
+			}
 		}
 	}
 
@@ -91,6 +97,12 @@ namespace BitSerializer::Detail
 			outTimestamp.Seconds = std::chrono::duration_cast<std::chrono::seconds>(duration).count();
 			const auto leftTime = duration - std::chrono::duration_cast<std::chrono::duration<TRep, TPeriod>>(std::chrono::seconds(outTimestamp.Seconds));
 			outTimestamp.Nanoseconds = static_cast<int32_t>(std::chrono::duration_cast<std::chrono::nanoseconds>(leftTime).count());
+			// Nanoseconds must be in the range [0, 999999999], so seconds are rounded down for negative durations
+			if (outTimestamp.Nanoseconds < 0)
+			{
+				--outTimestamp.Seconds;
+				outTimestamp.Nanoseconds += 1000000000;
+			}
 		}
 	}
 
